@@ -96,6 +96,8 @@ def run_alt_one(sid, tier):
             clauses = [l for l in c.stdout.splitlines() if l.startswith("violated clause")][:2]
             out.append("%-28s %s %s %.0fs %s" % (sid, p, "DETECTED" if viol else "missed (exit %d)" % c.returncode, time.time() - t0,
                                                   " | ".join(x[16:120] for x in clauses)))
+            if not viol and c.returncode != 0:
+                out.append("    " + (c.stdout + c.stderr)[-600:].replace("\n", "\n    "))
     finally:
         sh(["git", "-C", "/repo", "worktree", "remove", "--force", wt])
     return "\n".join(out)
